@@ -332,6 +332,11 @@ func (r *Resolver) of(v ssa.Value) *Org {
 					if sv, sr := r.carrierPathValue(x.X, 0); sv != nil {
 						return sr.Of(sv)
 					}
+					// a field of a package-level struct computed once in the
+					// package initialiser and never written again
+					if sv, sr := r.globalFieldValue(x.X); sv != nil {
+						return sr.Of(sv)
+					}
 				}
 			}
 			if in.K == "field" || in.K == "index" || in.K == "global" {
@@ -865,4 +870,92 @@ func Deref(o *Org, depth int) []*Org {
 		out = append(out, a)
 	}
 	return out
+}
+
+
+// globalFieldValue: addr is a field path on a package-level struct variable
+// that is assigned exactly once, in the package initialiser, and never
+// written otherwise: the value the field was given there (through a
+// constructor function returning a struct literal, or a literal), with the
+// resolver to interpret it.
+func (r *Resolver) globalFieldValue(addr ssa.Value) (ssa.Value, *Resolver) {
+	var path []int
+	cur := addr
+	for {
+		fa, ok := cur.(*ssa.FieldAddr)
+		if !ok {
+			break
+		}
+		path = append([]int{fa.Field}, path...)
+		cur = fa.X
+	}
+	g, ok := cur.(*ssa.Global)
+	if !ok || len(path) == 0 || g.Pkg == nil || r.P == nil {
+		return nil, nil
+	}
+	var init *ssa.Store
+	n := 0
+	for fn := range ssaAllFuncsOf(g.Pkg) {
+		for _, b := range fn.Blocks {
+			for _, in := range b.Instrs {
+				st, isSt := in.(*ssa.Store)
+				if !isSt {
+					continue
+				}
+				base := st.Addr
+				for {
+					if fa, isFA := base.(*ssa.FieldAddr); isFA {
+						base = fa.X
+						continue
+					}
+					break
+				}
+				if base != ssa.Value(g) {
+					continue
+				}
+				n++
+				if st.Addr == ssa.Value(g) && fn.Name() == "init" {
+					init = st
+				}
+			}
+		}
+	}
+	if n != 1 || init == nil {
+		return nil, nil
+	}
+	ir := NewResolver(r.P)
+	switch v := strip(init.Val).(type) {
+	case *ssa.Call:
+		sc := staticCallee(v.Common())
+		if sc == nil || !InRepo(sc) || sc.Blocks == nil {
+			return nil, nil
+		}
+		var lit *ssa.Alloc
+		okAll := true
+		allInstrs(sc, func(in ssa.Instruction) {
+			if ret, isRet := in.(*ssa.Return); isRet && len(ret.Results) == 1 {
+				var a *ssa.Alloc
+				switch rv := strip(ret.Results[0]).(type) {
+				case *ssa.Alloc:
+					a = rv
+				case *ssa.UnOp:
+					a, _ = rv.X.(*ssa.Alloc)
+				}
+				if a == nil || (lit != nil && lit != a) {
+					okAll = false
+					return
+				}
+				lit = a
+			}
+		})
+		if !okAll || lit == nil {
+			return nil, nil
+		}
+		return ir.Bind(sc, v).allocPathValue(lit, path, 0)
+	case *ssa.UnOp:
+		if a, isA := v.X.(*ssa.Alloc); isA {
+			return ir.allocPathValue(a, path, 0)
+		}
+	}
+	return nil, nil
 }
